@@ -236,7 +236,8 @@ MANIFEST = {
             "permutation. attach_preserves — a conjunct that reads one side of a join may be evaluated before the join. opt_equiv : forall fo fu co cu, C02_full (trVariant fo co true) (trVariant fu cu false) — the full statement's body for every pair of variants of the MODEL "
             "translator on the proved fragment (trVariant flipOf flipCh fastPath = C01's tr4F on stages S1, S1c (MATCH (n[:K...]) [WHERE p] RETURN count(n) [AS c], count-store fast path on / off), S2b and S2c "
             "(chains of 2-3 hops)): for every graph with GraphOK2, whenever both statements evaluate under Sql.eval they return the same bag of rows. Content: (1) a hop "
-            "query may be emitted in either join order by either variant — the lowering TraversalDirectionSelection of the optimised translator vs. the selectivity balance of the "
+            "query is emitted by the optimised variant with the frame PRUNED to the bindings that are read (lowering ProjectionPruning) and by the unoptimised one with all three, and "
+            "may be emitted in either join order by either variant — the lowering TraversalDirectionSelection of the optimised translator vs. the selectivity balance of the "
             "unoptimised one; the REAL two statements do differ in that order on generated S2b queries — and both orders are permutations of the Cypher result (C01 s2_sound; chain_sound for the first hop of a chain), hence of each "
             "other; (2) the count-store fast path against the node frame (C01 count_sound: both return the Cypher count; the fast path is emitted only when the MATCH has no user predicate); (3) on S1 the two statements are identical (trVariant_cases). The direction choice itself is not modelled "
             "(see C01): it is a parameter, the theorem holds for all choices, and the per-run tie frag-tie checks real optimised / unoptimised statement = model statement for one of the two "
